@@ -10,7 +10,7 @@ Definition gb : list Qc := [qz 1; qz 0].
 Definition gx0 : list Qc := [qz 0; qz 0].
 Definition gtolq : Qc := qq 1 10000000.
 Definition grunq (square_H : bool) : gres (V:=list Qc) :=
-  gmres_fwd QcOps (lvops QcOps) (mv QcOps gA) (ge_solve QcOps) square_H false false false gtolq (qz 10 * gtolq)%Qc 1 2 [gb] [gx0].
+  gmres_fwd QcOps (lvops QcOps) (mv QcOps gA) (ge_solve QcOps) square_H false false false false gtolq (qz 10 * gtolq)%Qc 1 2 [gb] [gx0].
 Definition gsolq (square_H : bool) : list Qc := nth 0 (gsol (grunq square_H)) [].
 (* squared residual norm of y for A x = b *)
 Definition gres2 (y : list Qc) : Qc := let r := lmap2 Qcminus gb (mv QcOps gA y) in ldot QcOps r r.
